@@ -1,10 +1,12 @@
 import Goat.Driver.Parse
+import Goat.Driver.Num
 /-! goatmodel: one operation per input line, one canonical output line per operation. -/
 open Goat.Driver
 
 def step (line : String) : String :=
   match (line.trimAscii.toString.splitOn " ").filter (· ≠ "") with
   | "parse" :: args => parseCmd args
+  | "num" :: args => numCmd args
   | _ => "bad-op"
 
 partial def loop (h : IO.FS.Stream) (out : IO.FS.Stream) : IO Unit := do
